@@ -572,7 +572,15 @@ class SubtypeUnpackerBuilder(DiscriminatedUnionUnpackerBuilder):
     def _get_variants_attr(self, spec: ValueSpec) -> str:
         if self._variants_attr is None:
             assert self.discriminator.include_subtypes
+            # one registry per format: a variant found here is known to have
+            # its own method of this format (the methods of other formats
+            # are compiled by their own dispatchers)
             self._variants_attr = "__mashumaro_subtype_variants__"
+            if spec.builder.format_name != "dict":
+                self._variants_attr = (
+                    "__mashumaro_subtype_variants_"
+                    f"{spec.builder.format_name}__"
+                )
         return self._variants_attr
 
 
